@@ -20,6 +20,7 @@ type nestInst struct {
 	flag bool
 	tok  int
 	ro   bool // read-only: while set, nothing below is allowed to change
+	pol  bool // an accept-everything push policy is installed: the option then has no say (documented)
 	// vars: alias variables the caller owns and has handed out pointers to; the caller fills them in or
 	// empties them whenever it likes, without a word to the stack that holds the pointer
 	vars []*StackAlias
@@ -123,7 +124,7 @@ func c13Ops(maxBatch int, classes []string, cond bool) []nestOp {
 		}
 		return ops
 	}
-	ops = append(ops, nestOp{"Pop", 0, nil, "pop"})
+	ops = append(ops, nestOp{"Pop", 0, nil, "pop"}, nestOp{"SetPushPolicy(accept everything)", 0, nil, "pol-on"}, nestOp{"SetPushPolicy(nil)", 0, nil, "pol-off"})
 	var rec func(prefix []string)
 	rec = func(prefix []string) {
 		if len(prefix) > 0 {
@@ -193,6 +194,15 @@ func c13Machine(c *Ctx, kind string, maxL, maxBatch int, classes []string, cond 
 			var out []string
 			bad := func(k, f string, a ...any) { out = append(out, k+"\x00"+fmt.Sprintf(f, a...)) }
 			switch o.kind {
+			case "pol-on", "pol-off":
+				if o.kind == "pol-on" {
+					in.s.SetPushPolicy(func(...any) error { return nil })
+				} else {
+					in.s.SetPushPolicy(nil)
+				}
+				if !in.ro {
+					in.pol = o.kind == "pol-on"
+				}
 			case "vars-fill":
 				for i, a := range in.vars {
 					*a = StackAlias(stackage.And().Push(fmt.Sprintf("t%d", 900+i)))
@@ -291,7 +301,7 @@ func c13Machine(c *Ctx, kind string, maxL, maxBatch int, classes []string, cond 
 					switch {
 					case in.ro:
 						// read-only: nothing is stored
-					case in.flag && sl:
+					case in.flag && sl && !in.pol:
 						anyStack = true // refused: it does not use up room either
 					case in.capk > 0 && len(in.m) >= in.capk:
 						// no room left: dropped
@@ -372,7 +382,9 @@ func c13Machine(c *Ctx, kind string, maxL, maxBatch int, classes []string, cond 
 			if in.isC {
 				return canonTokens(stackage.VerifDump(in.c).Key(false))
 			}
-			return stackKey(in.s)
+			// the model's own bits belong to the state: two histories that leave the same dump but different
+			// expectations (a policy the model believes removed) have different futures
+			return stackKey(in.s) + fmt.Sprint("|model:", in.pol, in.flag, in.ro)
 		},
 	}
 }
